@@ -380,7 +380,10 @@ def check_key_derivation(chk, F):
 
 DESC_TEMPLATES = ["wpkh(K0)", "pkh(K0)", "sh(wpkh(K0))", "wsh(multi(2,K0,K1))", "sh(multi(1,K0,K1))",
                   "sh(wsh(sortedmulti(1,K0,K1)))", "wsh(and_v(v:pk(K0),or_d(pk(K1),older(5))))", "tr(K0)",
-                  "tr(K0,{pk(K1),and_v(v:pk(K2),older(9))})", "tr(K0,multi_a(2,K1,K2))", "wsh(thresh(2,pk(K0),s:pk(K1),s:pk(K2)))"]
+                  "tr(K0,{pk(K1),and_v(v:pk(K2),older(9))})", "tr(K0,multi_a(2,K1,K2))", "wsh(thresh(2,pk(K0),s:pk(K1),s:pk(K2)))",
+                  # hash fragments: the key translators behind these functions must leave every hash as it is
+                  "wsh(and_v(v:pk(K0),sha256(%s)))" % ("ab" * 32), "wsh(and_v(v:pk(K0),hash256(%s)))" % ("cd" * 32),
+                  "sh(wsh(and_v(v:pk(K0),ripemd160(%s))))" % ("ef" * 20), "tr(K0,and_v(v:pk(K1),hash160(%s)))" % ("12" * 20)]
 
 
 def check_descriptor_split(chk, F):
